@@ -1,16 +1,29 @@
 (* Proofs/RouteProofs.v — property C04 at the ARRAY / ELEMENT level: the value
    of a fermionic contraction (model `f_tensordot`, blockwise strategy) does not
-   depend on the route.
+   depend on the route.  Everything is stated for wf operands (`wf_fermi`), at
+   the level of the observable value `V x cs = sem (f_value x) cs` and of the
+   odd-position labels.
 
-   part 1  sector_parity: the number of odd charges of a stored sector has the
-           parity of the total charge
-   part 2  the sign algebra on words of axes (`wsg` = inversion parity of a word
-           of axes of one sector; concatenation, block exchange, reversal)
-   part 3  bridge: `Fermi.resolve_oddpos` (hand model inside f_tensordot) is the
-           `Oddpos.resolve` of the label-level theorems of C04
-   part 4  value-level tools: sem of a fermionic transpose, commutative ring laws
-   part 5  swap_operands
-   ...                                                                        *)
+   part 1   sector_parity: the number of odd charges of a stored sector has the
+            parity of the total charge
+   part 2   the sign algebra on words of axes (`wsg` = inversion parity of a word
+            of axes of one sector, `wcr` crossings of two words; concatenation,
+            block exchange, reversal); `inv_parity_wsg` ties it to the code's sign
+   part 3   bridge: `Fermi.resolve_oddpos` (hand model inside f_tensordot) IS the
+            `Oddpos.resolve` of the label-level theorems of Props/C04.v
+   part 3b  the sign between two arrangements does not depend on the reference
+            order (`winv_diff_canon`); sums / products under permutations
+   part 4   value-level tools: commutative ring laws, `same_val` (the values and
+            contraction signs only depend on blocks, pending signs, labels, charge
+            and leg directions, not on the index tables), the contraction result
+            before unused charges are dropped is wf (`tdot_main`), `V_transpose`
+   part 5   swap_operands
+   part 6   axis_listing
+   part 7   pre_transpose_a (transposed first operand)
+   part 8   assoc_chain ((a.b).c = a.(b.c), general position of all axes)
+   part 9   pre_transpose_b (transposed second operand)
+   examples Z2 instances with odd charges, mixed directions, pending signs and
+            distinct labels on which every hypothesis holds and every sign matters *)
 From SV Require Import Base.Prelude Base.Sym Base.Tensor Gen.PhasePerm Gen.OpOrder Model.SymInst Model.Sectors
   Model.Array Model.Arith Model.Fermi Model.Graded Model.Oddpos Model.Wf
   Proofs.SymLaws Proofs.GroupFacts Proofs.GradedProofs Proofs.OddposProofs Proofs.Tdot Proofs.StructProofs
@@ -2346,6 +2359,179 @@ Section Assoc.
   Qed.
 End Assoc.
 
+(* ================================================================ part 9 *)
+(* a fermionic transpose applied to the SECOND operand beforehand *)
+Section PreTransposeB.
+  Context (G : Symmetry) (GL : GroupLaws G) (OL : OrderProofs.OrderLaws G).
+  Context (R : Ring) (NL : NegLaws R) (RL : SumLaws R).
+  Notation sector := (list (C G)).
+  Notation farr := (farray G R).
+  Notation ch_d := (ident G).
+  Notation ix_d := (dflt_index G).
+  Notation dcoord := (ident G, 0).
+  Notation cspec := (ceqb_eq G GL).
+  Notation rsg := (rsgn R).
+  Notation Vv := (V G R).
+
+  Context (a b : farr) (aa ab p : list nat).
+  Context (Wa : wf_fermi G R a = true) (Wb : wf_fermi G R b = true) (P : pair_ok G R a b aa ab).
+  Context (HP : Permutation p (seq 0 (ndim G R (fbase G R b)))).
+  Let na := ndim G R (fbase G R a).
+  Let nb := ndim G R (fbase G R b).
+  Let g (i : nat) : nat := nth i p 0.
+  Let h (j : nat) : nat := index_of j p.
+  Let b' := f_transpose G R b p true.
+  Let ab' := map h ab.
+  Let rb := rest_axes nb ab.
+  Let rb' := rest_axes nb ab'.
+  Let rp := map g rb'.
+  Let qr := map (fun j => index_of j rb) rp.
+  Let nl := na - length aa.
+  Let nr := length rb.
+  Let q := seq 0 nl ++ map (fun i => nl + i) qr.
+  Let P' := pair_ok_sym G R a b aa ab P.
+
+  Lemma ptb_perm_rp : Permutation rp rb. Proof. exact (pt_perm_lp G R b a ab aa p P' HP). Qed.
+  Lemma ptb_rp_rb : map (fun t => nth t rb 0) qr = rp. Proof. exact (pt_lp_la G R b a ab aa p P' HP). Qed.
+  Lemma ptb_perm_qr : Permutation qr (seq 0 nr). Proof. exact (pt_perm_ql G R b a ab aa p P' HP). Qed.
+  Lemma ptb_pair_ok : pair_ok G R a b' aa ab'.
+  Proof. apply pair_ok_sym. exact (pt_pair_ok G R b a ab aa p P' HP). Qed.
+  Lemma ptb_ndim : ndim G R (fbase G R b') = nb. Proof. exact (pt_ndim G R b p HP). Qed.
+  Lemma ptb_len_p : length p = nb. Proof. exact (pt_len_p G R b p HP). Qed.
+
+  Lemma ptb_perm_q : Permutation q (seq 0 (nl + nr)).
+  Proof.
+    unfold q. rewrite seq_app. apply Permutation_app_head. cbn [Nat.add].
+    rewrite (seq_add_map nr nl). apply Permutation_map, ptb_perm_qr.
+  Qed.
+
+  Lemma ptb_sign (sb Kl : sector) : length sb = nb -> length Kl = nl ->
+    xorb (sigma_b G R b' ab' (permuted ch_d sb p)) (wsg (odd_at G sb) p)
+    = xorb (wsg (odd_at G (Kl ++ take_axes ch_d sb rb)) q) (sigma_b G R b ab sb).
+  Proof.
+    intros Lb Ll. unfold sigma_b. rewrite ptb_ndim. fold nb rb rb'.
+    set (sb' := permuted ch_d sb p).
+    assert (Lsb' : length sb' = nb) by (unfold sb'; rewrite permuted_length; apply ptb_len_p).
+    assert (Hodd : forall i, i < nb -> odd_at G sb' i = odd_at G sb (g i)).
+    { intros i Hi. unfold odd_at, sb', permuted. f_equal.
+      apply (map_nth_lt (fun i => nth i sb ch_d) p 0 ch_d). now rewrite ptb_len_p. }
+    pose proof (po_ndb _ _ _ _ _ _ P) as NDab. pose proof (po_ltb _ _ _ _ _ _ P) as Hab. fold nb in Hab.
+    pose proof (po_nda _ _ _ _ _ _ ptb_pair_ok) as _.
+    pose proof (po_ndb _ _ _ _ _ _ ptb_pair_ok) as NDab'. pose proof (po_ltb _ _ _ _ _ _ ptb_pair_ok) as Hab'.
+    rewrite ptb_ndim in Hab'.
+    pose proof (perm_axes_rest nb ab' NDab' Hab') as PB'. fold rb' in PB'.
+    pose proof (perm_axes_rest nb ab NDab Hab) as PB. fold rb in PB.
+    assert (PR' : Permutation (rev ab' ++ rb') (seq 0 nb)).
+    { rewrite <- PB'. apply Permutation_app_tail. symmetry. apply Permutation_rev. }
+    assert (PR : Permutation (rev ab ++ rb) (seq 0 nb)).
+    { rewrite <- PB. apply Permutation_app_tail. symmetry. apply Permutation_rev. }
+    rewrite (inv_parity_wsg G sb' (rev ab' ++ rb')) by (intros i Hi; rewrite Lsb'; apply (perm_lt _ _ PR' i Hi)).
+    rewrite (inv_parity_wsg G sb (rev ab ++ rb)) by (intros i Hi; rewrite Lb; apply (perm_lt _ _ PR i Hi)).
+    set (P0 := fun i => odd_at G sb (g i)).
+    assert (Mg : map g ab' = ab) by exact (pt_map_g_aa' G R b a ab aa p P' HP).
+    assert (E1 : wsg (odd_at G sb') (rev ab' ++ rb') = xorb (wsg (odd_at G sb) (rev ab ++ rp)) (wsg (odd_at G sb) p)).
+    { rewrite (wsg_ext_in (odd_at G sb') P0 (rev ab' ++ rb')) by (intros i Hi; apply Hodd, (perm_lt _ _ PR' i Hi)).
+      pose proof (winv_diff_canon P0 (fun i : nat => i) g (rev ab' ++ rb') (seq 0 nb) PR'
+                    ltac:(intros x y _ _ E; exact E)
+                    ltac:(intros x y Hx Hy E; apply (proj1 (NoDup_nth p 0) (pt_nd_p G R b p HP));
+                          [rewrite ptb_len_p; apply (perm_lt _ _ PR' x Hx)|rewrite ptb_len_p; apply (perm_lt _ _ PR' y Hy)|exact E])) as Dd.
+      rewrite (winv_sorted P0 (fun i : nat => i) (seq 0 nb) (SS_seq 0 nb)) in Dd. rewrite xorb_false_r in Dd.
+      unfold wsg at 1. rewrite Dd.
+      assert (Wm : forall w, winv P0 g w = wsg (odd_at G sb) (map g w)) by (intros w; unfold wsg; rewrite winv_map; reflexivity).
+      rewrite !Wm. rewrite map_app, map_rev, Mg. fold rp. f_equal. f_equal.
+      unfold g. rewrite <- ptb_len_p. apply StructProofs.map_nth_seq. }
+    rewrite E1.
+    assert (E2 : xorb (wsg (odd_at G sb) (rev ab ++ rp)) (wsg (odd_at G sb) (rev ab ++ rb)) = wsg (odd_at G sb) rp).
+    { rewrite !wsg_app. rewrite (wcr_perm_r (odd_at G sb) (rev ab) rp rb ptb_perm_rp).
+      rewrite (wsg_sorted (odd_at G sb) rb (SS_rest_axes nb ab)).
+      now destruct (wsg (odd_at G sb) rp), (wsg (odd_at G sb) (rev ab)), (wcr (odd_at G sb) (rev ab) rb). }
+    assert (E3 : wsg (odd_at G (Kl ++ take_axes ch_d sb rb)) q = wsg (odd_at G sb) rp).
+    { unfold q. rewrite wsg_app, (wsg_sorted _ (seq 0 nl) (SS_seq 0 nl)).
+      rewrite wcr_before.
+      2:{ intros x y Hx Hy. apply in_seq in Hx. apply in_map_iff in Hy. destruct Hy as [j [<- _]]. lia. }
+      rewrite xorb_false_r, xorb_false_l. unfold qr. rewrite map_map. rewrite <- Ll.
+      rewrite <- (app_nil_r (take_axes ch_d sb rb)).
+      apply (wsg_embed G sb Kl [] rb rp (SS_rest_axes nb ab)).
+      intros j Hj. apply (Permutation_in _ ptb_perm_rp), Hj. }
+    rewrite E3, <- E2.
+    generalize (wsg (odd_at G sb) (rev ab ++ rp)) (wsg (odd_at G sb) p) (wsg (odd_at G sb) (rev ab ++ rb)).
+    intros b1 b2 b3. now destruct b1, b2, b3.
+  Qed.
+
+  Theorem pre_transpose_b : distinct (foddpos G R a ++ foddpos G R b) ->
+    exists y y',
+      f_tensordot G R a b (naxes aa ab) MBlockwise = Some y
+      /\ f_tensordot G R a b' (naxes aa ab') MBlockwise = Some y'
+      /\ let t := f_transpose G R y q true in
+         foddpos G R y' = foddpos G R t
+         /\ forall cl cr,
+              coords_ok G (without_axes (indices G R (fbase G R a)) aa) cl = true ->
+              coords_ok G (without_axes (indices G R (fbase G R b)) ab) cr = true ->
+              Vv y' (cl ++ permuted dcoord cr qr) = Vv t (cl ++ permuted dcoord cr qr).
+  Proof.
+    intros D. pose proof (f_transpose_wf G GL R b p true Wb HP) as Wb'. fold b' in Wb'.
+    destruct (tdot_main G GL OL R NL RL a b aa ab Wa Wb P D) as [y [m (E1 & R1 & _ & W1 & D1 & _ & S1)]].
+    destruct (tdot_main G GL OL R NL RL a b' aa ab' Wa Wb' ptb_pair_ok D) as [y' [m' (E2 & R2 & _ & _ & _ & _ & S2)]].
+    exists y, y'. split; [exact E1|]. split; [exact E2|]. cbv zeta.
+    change (foddpos G R b') with (foddpos G R b) in R2.
+    rewrite R1 in R2. injection R2 as Em El. subst m'. split; [cbn [f_transpose foddpos]; now symmetry|].
+    intros cl cr Hcl Hcr.
+    pose proof (po_nda _ _ _ _ _ _ P) as NDaa. pose proof (po_lta _ _ _ _ _ _ P) as Haa.
+    pose proof (po_ndb _ _ _ _ _ _ P) as NDab. pose proof (po_ltb _ _ _ _ _ _ P) as Hab.
+    pose proof (po_len _ _ _ _ _ _ P) as Hlen.
+    destruct (free_ixs_length G R a b aa ab P) as [Ll Lr].
+    pose proof (Tdot.coords_ok_length G _ _ Hcl) as Lcl. pose proof (Tdot.coords_ok_length G _ _ Hcr) as Lcr.
+    rewrite Ll in Lcl. rewrite Lr in Lcr. fold na nb in Lcl, Lcr. fold nl in Lcl.
+    assert (Lrb : nr = nb - length ab) by apply (length_rest_axes nb ab NDab Hab).
+    rewrite <- Lrb in Lcr.
+    set (y0 := reindex G R y (free_ixs G R a b aa ab)).
+    pose proof (same_val_reindex G R y (free_ixs G R a b aa ab) D1) as SV. fold y0 in SV.
+    rewrite <- (same_val_V G R _ _ (same_val_transpose G R y0 y q SV)).
+    assert (Ep : cl ++ permuted dcoord cr qr = permuted dcoord (cl ++ cr) q).
+    { unfold q. rewrite permuted_app. f_equal.
+      - rewrite <- Lcl. symmetry. apply (take_app_l dcoord cl cr).
+      - rewrite <- Lcl. symmetry. apply (take_shift dcoord cl cr qr). }
+    rewrite Ep at 2.
+    rewrite (V_transpose G GL R NL y0 q (cl ++ cr) W1).
+    2:{ unfold y0, reindex, ndim. cbn [fbase indices]. unfold free_ixs. rewrite app_length, Ll, Lr. fold na nb nl.
+        rewrite <- Lrb. apply ptb_perm_q. }
+    2:{ unfold y0, reindex. cbn [fbase indices]. apply coords_ok_app; assumption. }
+    rewrite (same_val_V G R y0 y SV). rewrite (S1 cl cr Hcl Hcr).
+    assert (Hcr' : coords_ok G (without_axes (indices G R (fbase G R b')) ab') (permuted dcoord cr qr) = true).
+    { rewrite (without_axes_take ix_d). fold (ndim G R (fbase G R b')). rewrite ptb_ndim. fold rb'.
+      unfold b', f_transpose, a_transpose. cbn [fbase indices].
+      rewrite (pt_take_la' G R b a ab aa p P' HP ix_d). fold nb rb. fold g h ab' rb' rp qr.
+      apply StructProofs.coords_ok_permuted.
+      - rewrite (without_axes_take ix_d) in Hcr. exact Hcr.
+      - intros t Ht. rewrite (length_take_axes ix_d). apply (perm_lt qr _ ptb_perm_qr t Ht). }
+    etransitivity; [apply (S2 cl _ Hcl Hcr')|]. rewrite ptb_ndim. fold na nb.
+    rewrite !(rsgn_rsum R NL). apply (Tdot.rsum_ext R). intros kc Hkc.
+    pose proof (In_all_coords G cspec _ kc (wff_ix_nodup G GL OL R a aa Wa) Hkc) as Hk.
+    pose proof (Tdot.coords_ok_length G _ _ Hk) as Lk. rewrite (length_take_axes ix_d) in Lk.
+    assert (Hkb : coords_ok G (take_axes ix_d (indices G R (fbase G R b)) ab) kc = true).
+    { rewrite <- (coords_ok_agree G _ _ kc (po_tabs _ _ _ _ _ _ P)). exact Hk. }
+    pose proof (pt_merge G R b a ab aa p P' HP cr kc ltac:(congruence) ltac:(fold nb rb nr; exact Lcr)) as HM.
+    fold nb g h ab' rb rb' rp qr in HM. rewrite HM. clear HM.
+    set (A := merge G na aa cl kc). set (B := merge G nb ab cr kc).
+    pose proof (V_transpose G GL R NL b p B Wb HP
+                  (coords_ok_merge G (indices G R (fbase G R b)) ab cr kc NDab Hab Hkb Hcr)) as HV.
+    fold b' in HV. rewrite HV. clear HV.
+    rewrite !(rsgn_rsgn R NL), !(rmul_rsgn R NL), !(rsgn_rsgn R NL). f_equal.
+    rewrite (permuted_map fst dcoord B p). cbn [fst].
+    pose proof (ptb_sign (map fst B) (map fst cl) ltac:(rewrite map_length; apply merge_length)
+                  ltac:(rewrite map_length; exact Lcl)) as HS.
+    assert (Tr : take_axes ch_d (map fst B) rb = map fst cr).
+    { unfold B, rb. apply merge_take_rest. fold rb nr. exact Lcr. }
+    rewrite Tr, <- map_app in HS.
+    set (X := wsg (odd_at G (map fst (cl ++ cr))) q) in *.
+    change (wsg (odd_at G (map fst (cl ++ cr))) q) with X in HS.
+    revert HS.
+    generalize (sigma_b G R b' ab' (permuted ch_d (map fst B) p)) (wsg (odd_at G (map fst B)) p)
+               (sigma_a G R a aa (map fst A)) (sigma_b G R b ab (map fst B)).
+    intros b1 b2 b3 b4 HS. destruct m, X, b1, b2, b3, b4; cbn in *; congruence.
+  Qed.
+End PreTransposeB.
+
 (* ================================================================ examples *)
 (* The hypotheses of the theorems above hold on a concrete non-trivial instance:
    Z2, both operands of odd total charge, mixed directions, pending signs,
@@ -2424,6 +2610,21 @@ Module RouteEx.
     | _, _, _, _ => False
     end.
   Proof. vm_compute. repeat split; reflexivity. Qed.
+
+  (* a transposed SECOND operand (xD as second operand, transposed by [3;1;0;2]) *)
+  Example pre_transpose_b_values :
+    let p := [3; 1; 0; 2] in
+    let ab' := map (fun j => index_of j p) [2; 1] in
+    let qr := map (fun j => index_of j (rest_axes 4 [2; 1])) (map (fun i => nth i p 0) (rest_axes 4 ab')) in
+    pair_ok Z2 ZRing xB xD [0; 2] [2; 1] /\ qr = [1; 0] /\
+    match f_tensordot Z2 ZRing xB xD (naxes [0; 2] [2; 1]) MBlockwise,
+          f_tensordot Z2 ZRing xB (f_transpose Z2 ZRing xD p true) (naxes [0; 2] ab') MBlockwise with
+    | Some y, Some y' =>
+        farray_eqb Z2 ZRing (f_transpose Z2 ZRing y (seq 0 1 ++ map (fun i => 1 + i) qr) true) y' = true
+        /\ farray_eqb Z2 ZRing (f_transpose Z2 ZRing y (seq 0 1 ++ map (fun i => 1 + i) qr) false) y' = false
+    | _, _ => False
+    end.
+  Proof. split; [exact (pair_ok_sym Z2 ZRing xD xB [2; 1] [0; 2] pair_ok_ex)|]. vm_compute. repeat split; reflexivity. Qed.
 
   (* associativity: three odd tensors, b in the middle with one leg to each side *)
   Definition ixC := [Index Z2 [(0%Z, 1); (1%Z, 3)] false None; Index Z2 [(0%Z, 2); (1%Z, 1)] false None;
